@@ -261,6 +261,10 @@ def run_chain(cfg, tname, target, k, kind, seed, n_iter=3):
             except Exception as e:  # noqa: BLE001
                 problems.append(f"iteration {it}: {type(e).__name__} escaped transition.sample ({e})")
                 return problems, inj.fired
+            undeclared = set(stats) - set(trans.statistic_types)
+            if undeclared:
+                problems.append(f"iteration {it}: transition returned undeclared statistics {sorted(undeclared)} (the sampler cannot record them)")
+                return problems, inj.fired
             if not (np.all(np.isfinite(state.pos)) and np.all(np.isfinite(state.mom))):
                 problems.append(f"iteration {it}: chain state not finite: pos={state.pos} mom={state.mom}")
                 return problems, inj.fired
@@ -361,6 +365,49 @@ def solver_direct_section(ctx, rng):
                     ctx.count(f"solver-direct:{sname}:{res}")
 
 
+def sampler_section(ctx, rng):
+    """Faults injected while sampling through `sample_chains`: the run must complete, the failure must be
+    recorded in the returned statistics and the traces must stay finite."""
+    import mici
+
+    plan = []
+    for cfg in ("euclid-leapfrog", "constr-newton", "constr-quasi", "riem-leapfrog-direct"):
+        for hmc in ("static", "random", "multinomial", "slice"):
+            for kind in ("nan", "pinf", "value"):
+                plan.append((cfg, hmc, kind))
+    if ctx.quick:
+        plan = [plan[i] for i in sorted(rng.permutation(len(plan))[:16])]
+    for cfg, hmc, kind in plan:
+        inj = Injector()
+        system, integ, init, targets = make_config(cfg, inj)
+        target = targets[0]
+        if kind == "value" and target not in ("constr", "jacob_constr", "metric_diagonal_func", "vjp_metric_diagonal_func"):
+            continue
+        k = int(rng.integers(3, 40))
+        case = {"config": cfg, "hmc": hmc, "target": target, "k": k, "fault": kind, "seed": ctx.seed, "kind": "sampler"}
+        cls = {"static": mici.samplers.StaticMetropolisHMC, "random": mici.samplers.RandomMetropolisHMC,
+               "multinomial": mici.samplers.DynamicMultinomialHMC, "slice": mici.samplers.DynamicSliceHMC}[hmc]
+        kw = {"n_step": 3} if hmc == "static" else {"n_step_range": (1, 4)} if hmc == "random" else {"max_tree_depth": 3}
+        sampler = cls(system, integ, np.random.default_rng(ctx.seed), **kw)
+        st = init()
+        with np.errstate(all="ignore"):
+            try:
+                st.mom = system.sample_momentum(st, np.random.default_rng(1))
+                system.h(st)
+                inj.arm(target, k, kind)
+                inj.iteration = 0
+                out = sampler.sample_chains(0, 6, [st], adapters=None, display_progress=False, n_process=1)
+            except Exception as e:  # noqa: BLE001
+                ctx.violation(f"containment sampler {cfg} {hmc} {kind}",
+                              f"{type(e).__name__} escaped sample_chains: {e} ({case})", case)
+                continue
+        ctx.case(case, nontrivial=inj.fired is not None)
+        ctx.count(f"sampler:{hmc}:{'fired' if inj.fired is not None else 'not-reached'}")
+        pos = np.asarray(out.traces["pos"])
+        if not np.all(np.isfinite(pos)):
+            ctx.violation(f"containment sampler {cfg} {hmc} {kind}", f"non-finite positions recorded ({case})", case)
+
+
 def run(ctx: common.Ctx):
     rng = common.rng_for(ctx)
     ctx.rule = (
@@ -377,9 +424,14 @@ def run(ctx: common.Ctx):
     fp_section(ctx, rng)
     solver_direct_section(ctx, rng)
     chain_section(ctx, rng)
+    sampler_section(ctx, rng)
 
 
 def replay(ctx, obj):
+    if obj.get("kind") == "sampler":
+        sub = common.Ctx(ctx.prop, "thorough", obj["seed"])
+        sampler_section(sub, common.rng_for(sub))
+        return bool(sub.violations)
     if obj.get("kind") == "chain":
         problems, _ = run_chain(obj["config"], obj["transition"], obj["target"], obj["k"], obj["fault"], obj["seed"])
         return bool(problems)
